@@ -139,11 +139,11 @@ class Cluster(object):
                 print('length m0: ', self.signal_by_index(0).npts)
                 print('length m1: ', self.signal_by_index(1).npts)
             length_check = min(self.signal_by_index(0).npts, self.signal_by_index(1).npts)
-            bm = self.signal_by_index(self.master_index).values[:length_check]
+            bm = np.asarray(self.signal_by_index(self.master_index).values[:length_check], dtype=float)
             for s in range(len(self.signals)):
                 if s != self.master_index:
                     slave_signal = self.signal_by_index(s)
-                    om = slave_signal.values[:length_check]
+                    om = np.asarray(slave_signal.values[:length_check], dtype=float)
                     squares = (bm[0:-steps] - om[0:-steps]) ** 2
                     min_diff = np.sum(squares)
                     min_ind = 0
